@@ -8,15 +8,17 @@ from ..rules import scenario as SC
 from ..rules import contain as C
 
 EXPLANATION = (
-    "Static analysis (resource pairing on all normal exits + reachability). Decides: the wake-up close() closes both ends; "
-    "SimpleQueue.close closes reader and writer; every exit of the manager loop and the broken-pool routine reach the join of "
-    "the executor internals, which closes call queue, result queue and wake-up pipe on every path and joins every remaining "
-    "worker (R-LEAK, R-SHUTDOWN-SEQ); every worker removed from the table (pid branch, kill path, join-all) is joined or "
-    "tree-killed-and-joined on every path; kill-tree reaps in both implementations (R-KILL-TREE); os.pipe() ends in the launch, "
-    "the tracker start and fork_exec are closed or owned on all paths, the sentinel has a closing finaliser (R-SPAWN-FRESH, "
-    "R-EXITCODE, R-RELAUNCH); shutdown() drops its fd-holding references; no live exception of the feeder / manager thread "
-    "(whose frames reference the call queue) is handed to a future (R-LIVE-EXC). Not decided: measured counts over repeated "
-    "lifecycles. With the known finding D4 the releasing paths exist but are not reached; that is reported under C01/C05/C07."
+    'Static analysis (resource pairing on all normal exits + reachability). Decides: the wake-up close() closes both '
+    'ends; SimpleQueue.close closes reader and writer; every exit of the manager loop and the broken-pool routine '
+    'reach the join of the executor internals, which closes call queue, result queue and wake-up pipe on every path '
+    'and joins every remaining worker (R-LEAK, R-SHUTDOWN-SEQ); every worker removed from the table (pid branch, kill '
+    'path, join-all) is joined or tree-killed-and-joined on every path; kill-tree reaps in both implementations '
+    '(R-KILL-TREE); os.pipe() ends in the launch, the tracker start and fork_exec are closed or owned on all paths, '
+    'the sentinel has a closing finaliser (R-SPAWN-FRESH, R-EXITCODE, R-RELAUNCH); shutdown() drops its fd-holding '
+    'references; no live exception of the feeder / manager thread (whose frames reference the call queue) is handed '
+    'to a future (R-LIVE-EXC). Also decided: an overriding Queue.close() reaches the stored finaliser on every path '
+    '(R-FEEDER). Not decided: measured counts over repeated lifecycles. With the known finding D4 the releasing paths '
+    'exist but are not reached; that is reported under C01/C05/C07.'
 )
 
 
